@@ -19,21 +19,30 @@ import Asn1Verif.Front.ParserModuleRoundTrip
   finished (structural induction on the tree, `parse_print_Type`), so the fallback "depth ≤ 1"
   is not needed.
 
-  What is *not* hidden in `canon`: three lossy behaviours of the current parser are explicit
+  What is *not* hidden in `canon`: two lossy behaviours of the current parser are explicit
   decidable hypotheses of `parse_print_partial`, and for each of them a concrete counterexample
   shows that the full statement `parse_print_full` is false for the code as it is:
     1. `moduleNoWiden`   — `INTEGER (0..MAX)` / `(MIN..9223372036854775807)` lose their bound;
-    2. `moduleNoKwRef`   — a value reference called `min`/`max` is taken for the keyword;
-    3. `moduleNiceNames` — module / import names lose a trailing `Module`.
-  A fourth lossy behaviour cannot even be expressed as a printed model (the data model stores the
+    2. `moduleNiceNames` — module / import names lose a trailing `Module`.
+  A third lossy behaviour cannot even be expressed as a printed model (the data model stores the
   index of the last root component): an extension marker *before the first component* is recorded
   as if it stood after it — `ext_marker_first_collapses` below.
 
+  Repaired (the hypothesis / restriction is gone, the old witness is a regression `example`):
+    * a value reference called `min` / `max` / `Max` … used as a bound was taken for the keyword
+      (former hypothesis `moduleNoKwRef`): the keyword match is exact now; the supported subset
+      only asks that a reference in a bound position is not spelled `MIN` / `MAX` itself;
+    * a string literal whose first token is a separator lost that character, and the empty
+      literals `""`, `''H` were not recognised (`read_string_literal` took the first token after
+      the opening delimiter for content text whatever it was): `parse_print_StringTokens` holds
+      for every token sequence, `parse_print_Literal` includes the empty octet string.
+
   Scope notes.  The theorem is about token lists (layouts of the same tokens are property C13).
-  String literals: one text token between the quotes (the real parser rebuilds a literal from
-  token columns; the model assumes one blank between the tokens of a literal — see the header of
-  `Front/Parser.lean`).  The parser model uses a recursion budget (`tokens.length + 1`); for
-  printed modules the theorem shows that it suffices.  For arbitrary token lists sufficiency of
+  String literals: in a printed *module* one text token between the quotes, or none (the real
+  parser rebuilds a literal from token columns; the model assumes one blank between the tokens of
+  a literal — see the header of `Front/Parser.lean`); literals of several tokens are covered by
+  `parse_print_StringTokens` under that layout.  The parser model uses a recursion budget
+  (`tokens.length + 1`); for printed modules the theorem shows that it suffices.  For arbitrary token lists sufficiency of
   the budget is not proved here (every recursive call happens after at least one token has been
   consumed; the pseudo error `fuel` was never observed in the correspondence runs).
 -/
@@ -49,17 +58,17 @@ theorem parse_print_Tag (tag : Option Tag) (h : tagWf tag = true) (s : String) (
 
 /-- INTEGER: named numbers, both bounds (`MIN`/`MAX`, literal, reference), extensibility -/
 theorem parse_print_Integer (r : Range URange) (cs : List (String × Int))
-    (hr : rangeWf r = true) (hw : rangeNoWiden r = true) (hk : rangeNoKwRef r = true)
+    (hr : rangeWf r = true) (hw : rangeNoWiden r = true)
     (hcs : constsWfI cs = true) (fuel : Nat) (hfuel : cs.length ≤ fuel)
     (rest : List Token) (hrest : RestOk rest) :
     parseInteger fuel (printConstants tInt cs ++ (printRange r ++ rest)) = .ok ((r, cs), rest) :=
-  parseInteger_print r cs hr hw hk hcs fuel hfuel rest hrest
+  parseInteger_print r cs hr hw hcs fuel hfuel rest hrest
 
 /-- SIZE: `SIZE(n)`, `SIZE(a..b)`, with `, ...`; the result is the canonical form -/
-theorem parse_print_Size (s : Size USz) (hw : sizeWf s = true) (hk : sizeNoKwRef s = true)
+theorem parse_print_Size (s : Size USz) (hw : sizeWf s = true)
     (rest : List Token) (hrest : RestOk rest) :
     maybeReadSize (printSize s ++ rest) = .ok (canonSize s, rest) :=
-  maybeReadSize_print s hw hk rest hrest
+  maybeReadSize_print s hw rest hrest
 
 /-- ENUMERATED: variant names in order, numbers, marker position -/
 theorem parse_print_Enumerated (e : Enumerated) (hw : enumWf e = true) (fuel : Nat)
@@ -67,10 +76,41 @@ theorem parse_print_Enumerated (e : Enumerated) (hw : enumWf e = true) (fuel : N
     parseEnumerated fuel (printEnumerated e ++ rest) = .ok (e, rest) :=
   parseEnumerated_print e hw fuel hfuel rest
 
-/-- DEFAULT / value literals: TRUE/FALSE, integers, strings, octet strings -/
+/-- DEFAULT / value literals: TRUE/FALSE, integers, strings, octet strings (the empty string and
+    the empty octet string included) -/
 theorem parse_print_Literal (v : LiteralValue) (hw : litWf v = true) (rest : List Token) :
     readLiteral (printLit v ++ rest) = .ok (.lit v, rest) :=
   readLiteral_print v hw rest
+
+/-- string literals of any number of tokens: between the delimiters any words and separator
+    characters other than the delimiter — none at all, or a separator in first position — are
+    read back as the tokens joined by single blanks (`litText`); no hypothesis on the tokens -/
+theorem parse_print_StringTokens (delim : Char) (ws : List Token)
+    (hws : ∀ t ∈ ws, t.eqSep delim = false) (rest : List Token) :
+    readStringLiteral delim (printStringTokens delim ws ++ rest) =
+      .ok (delim :: (litText ws ++ [delim]), rest) :=
+  readStringLiteral_tokens delim ws hws rest
+
+/-- observation on the result of `readLiteral`: the literal and the tokens left -/
+def litIs (r : FR (LitResult × List Token)) (v : LiteralValue) (rest : List Token) : Bool :=
+  match r with
+  | .ok (.lit w, ts) => w == v && ts == rest
+  | _ => false
+
+/-- regression (was F-strdefault-first-sep): `DEFAULT ", a"` used to come back as `"  a"` -/
+example : litIs (readLiteral [.sep '"', .sep ',', .text "a", .sep '"', .sep '}'])
+    (.string ", a") [.sep '}'] = true := by decide
+example : litIs (readLiteral [.sep '"', .sep '(', .text "x", .sep ')', .sep '"'])
+    (.string "( x )") [] = true := by decide
+/-- regression (was F-strdefault-empty): `""`, `''H`, `''B` used to swallow the closing delimiter
+    and run on to the next one (`s UTF8String DEFAULT "", t IA5String DEFAULT "x"` gave `, t …`) -/
+example : litIs (readLiteral [.sep '"', .sep '"', .sep ',', .text "t"])
+    (.string "") [.sep ',', .text "t"] = true := by decide
+example : litIs (readLiteral [.sep '\'', .sep '\'', .text "H", .sep '}'])
+    (.octetString []) [.sep '}'] = true := by decide
+example : litIs (readLiteral [.sep '\'', .sep '\'', .text "B", .sep '}'])
+    (.octetString []) [.sep '}'] = true := by decide
+example : litWf (.octetString []) = true ∧ litWf (.string "") = true := by decide
 
 /-- the OPTIONAL / DEFAULT part of a component, up to the `,` or `}` that ends it -/
 theorem parse_print_Presence (opt : Bool) (d : Option UConst) (hod : opt = true → d = none)
@@ -81,28 +121,28 @@ theorem parse_print_Presence (opt : Bool) (d : Option UConst) (hod : opt = true 
 
 /-- any type, nested to any depth -/
 theorem parse_print_Type (t : UTy) (fuel : Nat) (rest : List Token) (hw : tyWf t = true)
-    (hnw : tyNoWiden t = true) (hk : tyNoKwRef t = true) (hr : RestOk rest)
+    (hnw : tyNoWiden t = true) (hr : RestOk rest)
     (hf : (tyTail t).length < fuel) :
     parseRoleGiven fuel (tyHead t) (tyTail t ++ rest) = .ok (canonTy t, rest) :=
-  parseRoleGiven_print t fuel rest hw hnw hk hr hf
+  parseRoleGiven_print t fuel rest hw hnw hr hf
 
 /-- SEQUENCE / SET component lists: names, tags, types, OPTIONAL / DEFAULT, marker position -/
 theorem parse_print_ComponentTypeList (fs : UFields) (ext : Option Nat) (fuel : Nat)
     (rest : List Token) (hw : fieldsWf fs = true) (hext : extWf ext fs.length = true)
-    (hnw : fieldsNoWiden fs = true) (hk : fieldsNoKwRef fs = true)
+    (hnw : fieldsNoWiden fs = true)
     (hf : (printFieldsLoop fs ext 0).length ≤ fuel) :
     componentLoop fuel 0 (printFieldsLoop fs ext 0 ++ rest) = .ok ((canonFields fs, ext), rest) := by
-  have := fieldsRT_all fs ext 0 fuel rest hw hnw hk hf
+  have := fieldsRT_all fs ext 0 fuel rest hw hnw hf
   rwa [extIn_all ext _ hext] at this
 
 /-- CHOICE alternative lists: names, tags, types, marker position -/
 theorem parse_print_Choice (vs : UVariants) (ext : Option Nat) (fuel : Nat) (rest : List Token)
     (hne : 0 < vs.length) (hw : variantsWf vs = true) (hext : extWf ext vs.length = true)
-    (hnw : variantsNoWiden vs = true) (hk : variantsNoKwRef vs = true)
+    (hnw : variantsNoWiden vs = true)
     (hf : (printVariantsLoop vs ext 0).length ≤ fuel) :
     choiceLoop fuel 0 false (printVariantsLoop vs ext 0 ++ rest) =
       .ok ((canonVariants vs, ext), rest) := by
-  have := variantsRT_all vs ext 0 false fuel rest hne hw hnw hk (by simp) hf
+  have := variantsRT_all vs ext 0 false fuel rest hne hw hnw (by simp) hf
   rwa [extIn_all ext _ hext] at this
 
 /-- object identifiers: name, number and name-and-number forms -/
@@ -119,11 +159,11 @@ theorem parse_print_Imports (is : List Import) (hw : is.all importWf = true) (fu
 
 /-! ### the property -/
 
-/-- **C07** on the supported subset minus the three lossy behaviours (explicit hypotheses) -/
+/-- **C07** on the supported subset minus the two lossy behaviours (explicit hypotheses) -/
 theorem parse_print_partial (A : UModule) (hw : moduleWf A = true)
-    (h1 : moduleNoWiden A = true) (h2 : moduleNoKwRef A = true) (h3 : moduleNiceNames A = true) :
+    (h1 : moduleNoWiden A = true) (h2 : moduleNiceNames A = true) :
     parseModule (printTokens A) = .ok (canon A) :=
-  parseModuleFuel_print A hw h1 h2 h3 _ (by omega)
+  parseModuleFuel_print A hw h1 h2 _ (by omega)
 
 /-- the full statement the property asks for -/
 def parse_print_full : Prop :=
@@ -150,15 +190,10 @@ def intDef (name : String) (lo hi : Option URange) : UDefinition :=
 
 /-- 1. `A ::= INTEGER (0..MAX)` -/
 def cexWiden : UModule := ⟨"M", none, [], [intDef "A" (some (.lit 0)) none], []⟩
-/-- 2. `max INTEGER ::= 5   A ::= INTEGER (1..max)` -/
-def cexKwRef : UModule :=
-  ⟨"M", none, [], [intDef "A" (some (.lit 1)) (some (.ref "max"))],
-    [⟨"max", .integer ⟨none, none, false⟩ [], .integer 5⟩]⟩
-/-- 3. a module called `FooModule` -/
+/-- 2. a module called `FooModule` -/
 def cexName : UModule := ⟨"FooModule", none, [], [intDef "A" none none], []⟩
 
 example : moduleWf cexWiden = true ∧ moduleNoWiden cexWiden = false := by decide
-example : moduleWf cexKwRef = true ∧ moduleNoKwRef cexKwRef = false := by decide
 example : moduleWf cexName = true ∧ moduleNiceNames cexName = false := by decide
 
 /-- `(0..MAX)` comes back without the lower bound -/
@@ -166,17 +201,12 @@ theorem cex_widen :
     firstRangeIs (parseModule (printTokens cexWiden)) none none = true ∧
     firstRangeIs (.ok (canon cexWiden)) (some (.lit 0)) none = true := by decide
 
-/-- `(1..max)` comes back without the upper bound -/
-theorem cex_kwref :
-    firstRangeIs (parseModule (printTokens cexKwRef)) (some (.lit 1)) none = true ∧
-    firstRangeIs (.ok (canon cexKwRef)) (some (.lit 1)) (some (.ref "max")) = true := by decide
-
 /-- `FooModule` comes back as `Foo` -/
 theorem cex_name :
     nameIs (parseModule (printTokens cexName)) "Foo" = true ∧
     nameIs (.ok (canon cexName)) "FooModule" = true := by decide
 
-/-- each of the three hypotheses of `parse_print_partial` is needed -/
+/-- each of the two hypotheses of `parse_print_partial` is needed -/
 theorem parse_print_full_false : ¬ parse_print_full := by
   intro h
   have h1 := h cexName (by decide)
@@ -185,22 +215,46 @@ theorem parse_print_full_false : ¬ parse_print_full := by
   exact absurd h2.1 (by decide)
 
 theorem parse_print_needs_noWiden :
-    ¬ (∀ A : UModule, moduleWf A = true → moduleNoKwRef A = true → moduleNiceNames A = true →
+    ¬ (∀ A : UModule, moduleWf A = true → moduleNiceNames A = true →
         parseModule (printTokens A) = .ok (canon A)) := by
   intro h
-  have h1 := h cexWiden (by decide) (by decide) (by decide)
+  have h1 := h cexWiden (by decide) (by decide)
   have h2 := cex_widen
   rw [h1] at h2
   exact absurd h2.1 (by decide)
 
-theorem parse_print_needs_noKwRef :
-    ¬ (∀ A : UModule, moduleWf A = true → moduleNoWiden A = true → moduleNiceNames A = true →
+theorem parse_print_needs_niceNames :
+    ¬ (∀ A : UModule, moduleWf A = true → moduleNoWiden A = true →
         parseModule (printTokens A) = .ok (canon A)) := by
   intro h
-  have h1 := h cexKwRef (by decide) (by decide) (by decide)
-  have h2 := cex_kwref
+  have h1 := h cexName (by decide) (by decide)
+  have h2 := cex_name
   rw [h1] at h2
   exact absurd h2.1 (by decide)
+
+/-! ### regression: value references called `min` / `max` (was F-ref-min-max, former hypothesis
+    `moduleNoKwRef` with the counterexample `cex_kwref`: `(1..max)` came back as `(1..MAX)`) -/
+
+/-- `max INTEGER ::= 5   A ::= INTEGER (1..max)   B ::= OCTET STRING (SIZE(min..Max))` -/
+def regKwRef : UModule :=
+  ⟨"M", none, [],
+    [intDef "A" (some (.lit 1)) (some (.ref "max")),
+     intDef "A2" (some (.ref "mIN")) (some (.ref "Max")),
+     ⟨"B", none, .octetString (.range (.ref "min") (.ref "Max") false)⟩],
+    [⟨"max", .integer ⟨none, none, false⟩ [], .integer 5⟩]⟩
+
+/-- the old witness lies in the domain of `parse_print_partial` now … -/
+example : moduleWf regKwRef = true ∧ moduleNoWiden regKwRef = true ∧
+    moduleNiceNames regKwRef = true := by decide
+example : parseModule (printTokens regKwRef) = .ok (canon regKwRef) :=
+  parse_print_partial regKwRef (by decide) (by decide) (by decide)
+/-- … and evaluates to the declared bounds -/
+example : firstRangeIs (parseModule (printTokens regKwRef)) (some (.lit 1)) (some (.ref "max")) = true := by
+  decide
+/-- the keywords themselves are still keywords, and only in this spelling -/
+example : rangeBound (.text "MAX") "MAX" = none ∧ rangeBound (.text "max") "MAX" = some (.ref "max") ∧
+    sizeBound (.text "MIN") "MIN" 0 = none ∧ sizeBound (.text "Min") "MIN" 0 = some (.ref "Min") := by
+  decide
 
 /-- 4. the leading extension marker: `SEQUENCE { ... , a INTEGER }` and
     `SEQUENCE { a INTEGER , ... }` — two different declarations (in the first `a` is an extension
@@ -241,7 +295,7 @@ def sample : UModule :=
         (some 1)⟩,
       ⟨"Empty", none, .set .nil none⟩] }
 
-example : moduleWf sample = true ∧ moduleNoWiden sample = true ∧ moduleNoKwRef sample = true ∧
+example : moduleWf sample = true ∧ moduleNoWiden sample = true ∧
     moduleNiceNames sample = true := by decide
 
 /-- … and `canon` really changes it only in the two SIZE constraints -/
